@@ -943,9 +943,11 @@ class DirectorHandler:
                 vol_paths=vol_paths,
                 ran_concurrently=self.scheduler.ran_concurrently,
             )
-        # The step is still running and may write the new outputs as soon as this call returns,
-        # so their directories are created here rather than when the step was dispatched.
-        self.workflow.create_dirs(Path(path).parent for path in chain(out_paths, vol_paths))
+            # The step is still running and may write the new outputs as soon as this call returns,
+            # so their directories are created here rather than when the step was dispatched.
+            # This happens inside the transaction: when a directory cannot be created
+            # (e.g. a regular file is in the way), the request fails and nothing of it is stored.
+            self.workflow.create_dirs(Path(path).parent for path in chain(out_paths, vol_paths))
         if to_check:
             checked_paths = set(to_check)
             await self.builder.run_promoted_hash_jobs(to_check, HashUpdateCause.CONFIRMED)
